@@ -722,4 +722,98 @@ theorem minit_ok (pb n : Nat) : ∀ v ∈ minit pb n, MOk pb v := by
 theorem mrun_ok (pb n : Nat) (ops : List MOp) : ∀ v ∈ mrun pb n ops, MOk pb v :=
   foldl_ok pb mstep (fun vs x hx => mstep_ok pb vs x hx) ops (minit pb n) (minit_ok pb n)
 
+/-! ## Part A over time: what the socket accepted is never retracted, the queued stream grows by exactly the message handed in -/
+
+/-- bytes the operation hands to the send path -/
+def Op.payload : Op → Bytes
+  | .send d => d
+  | .sendFast d _ => d
+  | _ => []
+
+theorem writeBuf_hist (s : St) (o : Outcome) :
+    (∃ t, (writeBuf s o).accepted = s.accepted ++ t) ∧ (writeBuf s o).queued = s.queued ∧ (writeBuf s o).dropped = s.dropped := by
+  unfold writeBuf
+  simp only []
+  split
+  · split
+    · exact ⟨⟨[], by simp [St.offer]⟩, rfl, rfl⟩
+    · unfold St.took St.afterWrite
+      split <;> exact ⟨⟨_, rfl⟩, rfl, rfl⟩
+  · exact ⟨⟨[], by simp [St.offer]⟩, rfl, rfl⟩
+  · exact ⟨⟨[], by simp [St.offer, St.fail]⟩, rfl, rfl⟩
+
+theorem doSend_hist (s : St) (o : Outcome) :
+    (∃ t, (doSend s o).accepted = s.accepted ++ t) ∧ (doSend s o).queued = s.queued ∧ (doSend s o).dropped = s.dropped := by
+  unfold doSend
+  split
+  · exact ⟨⟨[], by simp⟩, rfl, rfl⟩
+  · split
+    · exact ⟨⟨[], by simp⟩, rfl, rfl⟩
+    · exact writeBuf_hist s o
+
+theorem doSendRaw_hist (s : St) (o : Outcome) :
+    (∃ t, (doSendRaw s o).accepted = s.accepted ++ t) ∧ (doSendRaw s o).queued = s.queued ∧ (doSendRaw s o).dropped = s.dropped := by
+  unfold doSendRaw
+  split
+  · exact ⟨⟨[], by simp⟩, rfl, rfl⟩
+  · exact writeBuf_hist s o
+
+theorem doRecv_hist (s : St) (rx : Rx) :
+    (doRecv s rx).accepted = s.accepted ∧ (doRecv s rx).queued = s.queued ∧ (doRecv s rx).dropped = s.dropped := by
+  cases rx
+  · exact ⟨rfl, rfl, rfl⟩
+  · show (if s.closed then s else _).accepted = _ ∧ (if s.closed then s else _).queued = _ ∧ (if s.closed then s else _).dropped = _
+    cases s.closed <;> exact ⟨rfl, rfl, rfl⟩
+  · show (if s.closed then s else _).accepted = _ ∧ (if s.closed then s else _).queued = _ ∧ (if s.closed then s else _).dropped = _
+    cases s.closed <;> exact ⟨rfl, rfl, rfl⟩
+
+theorem step_hist (s : St) (op : Op) :
+    (∃ t, (step s op).accepted = s.accepted ++ t) ∧
+    (((step s op).queued = s.queued ++ op.payload ∧ (step s op).dropped = s.dropped) ∨
+     ((∃ d o, op = .sendFast d o) ∧ (step s op).queued = s.queued ∧ (step s op).dropped = s.dropped + 1)) := by
+  show (∃ t, (step0 s op).accepted = s.accepted ++ t) ∧
+    (((step0 s op).queued = s.queued ++ op.payload ∧ (step0 s op).dropped = s.dropped) ∨
+     ((∃ d o, op = .sendFast d o) ∧ (step0 s op).queued = s.queued ∧ (step0 s op).dropped = s.dropped + 1))
+  cases op with
+  | shutdown => exact ⟨⟨[], by simp [step0]⟩, .inl ⟨by simp [step0, Op.payload], rfl⟩⟩
+  | send d => exact ⟨⟨[], by simp [step0]⟩, .inl ⟨rfl, rfl⟩⟩
+  | pump o =>
+    obtain ⟨a, q, d⟩ := doSend_hist s o
+    exact ⟨a, .inl ⟨by simpa [step0, Op.payload] using q, d⟩⟩
+  | pumpRW rx o =>
+    obtain ⟨ra, rq, rd⟩ := doRecv_hist s rx
+    simp only [step0, Op.payload, List.append_nil]
+    split
+    · exact ⟨⟨[], by simp⟩, .inl ⟨rfl, rfl⟩⟩
+    · split
+      · obtain ⟨a, q, d⟩ := doSend_hist (doRecv s rx) o
+        rw [ra] at a; rw [rq] at q; rw [rd] at d
+        exact ⟨a, .inl ⟨q, d⟩⟩
+      · obtain ⟨a, q, d⟩ := doSendRaw_hist (doRecv s rx) o
+        rw [ra] at a; rw [rq] at q; rw [rd] at d
+        exact ⟨a, .inl ⟨q, d⟩⟩
+  | sendFast d o =>
+    simp only [step0, Op.payload]
+    split
+    · split
+      · split
+        · exact ⟨⟨_, rfl⟩, .inl ⟨rfl, rfl⟩⟩
+        · exact ⟨⟨_, rfl⟩, .inl ⟨rfl, rfl⟩⟩
+      · exact ⟨⟨[], by simp [St.offer]⟩, .inl ⟨rfl, rfl⟩⟩
+      · exact ⟨⟨[], by simp [St.offer]⟩, .inr ⟨⟨d, o, rfl⟩, rfl, rfl⟩⟩
+    · exact ⟨⟨[], by simp⟩, .inl ⟨rfl, rfl⟩⟩
+
+theorem run_snoc (ops : List Op) (op : Op) : run (ops ++ [op]) = step (run ops) op := by
+  simp [run, List.foldl_append]
+
+
+theorem foldl_accepted_mono (b : List Op) : ∀ s : St, ∃ t, (b.foldl step s).accepted = s.accepted ++ t := by
+  induction b with
+  | nil => intro s; exact ⟨[], by simp⟩
+  | cons op b ih =>
+    intro s
+    obtain ⟨t1, h1⟩ := (step_hist s op).1
+    obtain ⟨t2, h2⟩ := ih (step s op)
+    exact ⟨t1 ++ t2, by simp only [List.foldl_cons, h2, h1, List.append_assoc]⟩
+
 end Pox.SendPath
